@@ -261,7 +261,7 @@ func rulesC20(c *Ctx) {
 			}
 			if isNilIdent(r.Results[0]) && isNilIdent(r.Results[1]) {
 				if hasAtom(guards, func(a Atom) bool {
-					x, y, op, ok := binaryCmp(a.E)
+					x, y, op, ok := cmpOn(a.E, func(e ast.Expr) bool { return cp.ObjOf(e) == start })
 					return ok && op == token.GEQ && a.Val && cp.ObjOf(x) == start && func() bool { lc, ok := ast.Unparen(y).(*ast.CallExpr); return ok && cp.BuiltinName(lc) == "len" }()
 				}) {
 					emptyRet = r
@@ -281,8 +281,8 @@ func rulesC20(c *Ctx) {
 				}
 			}
 			gd := g.GuardsAt(g.VertexOf(dataRet))
-			c.Check(hasAtom(gd, func(a Atom) bool { x, _, op, ok := binaryCmp(a.E); return ok && op == token.LSS && !a.Val && cp.ObjOf(x) == start }) &&
-				hasAtom(gd, func(a Atom) bool { x, _, op, ok := binaryCmp(a.E); return ok && op == token.GEQ && !a.Val && cp.ObjOf(x) == start }), "After:suffix-bounds-checked", cp, dataRet, "the suffix is taken only for 0 <= start < len(data)")
+			c.Check(hasAtom(gd, func(a Atom) bool { x, _, op, ok := cmpOn(a.E, func(e ast.Expr) bool { return cp.ObjOf(e) == start }); return ok && op == token.LSS && !a.Val && cp.ObjOf(x) == start }) &&
+				hasAtom(gd, func(a Atom) bool { x, _, op, ok := cmpOn(a.E, func(e ast.Expr) bool { return cp.ObjOf(e) == start }); return ok && op == token.GEQ && !a.Val && cp.ObjOf(x) == start }), "After:suffix-bounds-checked", cp, dataRet, "the suffix is taken only for 0 <= start < len(data)")
 		}
 		c.Check(okClone, "After:copy-under-lock", cp, dataRet, "the suffix data[start:] is copied with slices.Clone while the lock is held (eviction nils elements of the live backing array, so an aliasing view would later yield emptied payloads without a purge error)")
 		c.Check(cp.heldLocal(dataRet)[lkStore], "After:copy-lock-held", cp, dataRet, "the copy happens with the store mutex held")
@@ -350,7 +350,7 @@ func rulesC20(c *Ctx) {
 			if !ok || fs.Cond == nil {
 				return
 			}
-			x, y, op, isCmp := binaryCmp(fs.Cond)
+			x, y, op, isCmp := cmpOn(fs.Cond, func(e ast.Expr) bool { return pf.IsField(e, nBytes) })
 			if isCmp && op == token.GTR && pf.IsField(x, nBytes) && pf.IsField(y, maxBytes) {
 				okLoop = len(pf.CallsIn(fs.Body, removeFirst, false)) == 1
 			}
